@@ -143,12 +143,28 @@ def run_lattice(defs):
             for r, dl, v in typed_points(w, scale, ref):
                 cands = admissible_roundings(v, ref, scale)
                 must_refuse = all(c < 0 or c > (1 << w) - 1 for c in cands)
-                for comp in (False, True):
+                # 'pre': the field does not start on an octet boundary and the bits in front of it are not all zero (a 7-bit
+                # element holding 0b1010101 first) -- for the points at and beyond the ends of the range, uncompressed
+                variants = [(False, False), (True, False)]
+                if dl in (DELTAS[0], 'int+0/%d' % (10 ** -scale if scale < 0 else 1)) and (r <= 0 or r >= (1 << w) - 2):
+                    variants.append((False, True))
+                for comp, pre in variants:
                     p.n['exec'] += 1
                     vals = [[v], [v_other]] if comp else [[v]]
-                    res = encode_decode(version, local, descs, vals, comp)
+                    if pre:
+                        res = encode_decode(version, local, [1001] + descs, [[85, v]], False)
+                        if res[0] == 'ok':
+                            if res[1][0][0] != 85:
+                                p.violation('neighbour-altered|%s' % cname, {'version': version, 'local': local, 'descs': descs,
+                                                                             'value': v, 'raw': r, 'delta': str(dl), 'compressed': False, 'pre': True},
+                                            '%06d: encoding the value %r changed the element in front of it: 85 reads back as %r'
+                                            % (d, v, res[1][0][0]))
+                                continue
+                            res = ('ok', [row[1:] for row in res[1]])
+                    else:
+                        res = encode_decode(version, local, descs, vals, comp)
                     case = {'version': version, 'local': local, 'descs': descs, 'value': v, 'raw': r, 'delta': str(dl),
-                            'compressed': comp}
+                            'compressed': comp, 'pre': pre}
                     cls = 'below' if r < 0 else ('above' if r > (1 << w) - 1 else ('ones' if r == (1 << w) - 1 else 'in'))
                     p.outcome((cname, cls, str(dl), comp, res[0]))
                     if res[0] == 'undecodable':
@@ -336,7 +352,7 @@ def replay(part, case):
         p = run_lattice([(case['version'], case['local'], [d for d in case['descs'] if d // 100000 == 0][0])])
         return [{'sig': v['sig'], 'detail': v['detail']} for v in p.viol
                 if v['case']['descs'] == case['descs'] and v['case']['raw'] == case['raw'] and v['case']['delta'] == case['delta']
-                and v['case']['compressed'] == case['compressed']]
+                and v['case']['compressed'] == case['compressed'] and v['case'].get('pre', False) == case.get('pre', False)]
     if part == 'strings':
         p = run_strings(None)
         return [{'sig': v['sig'], 'detail': v['detail']} for v in p.viol
